@@ -104,14 +104,17 @@ def check_mean(case, ctx):
     # extra coordinates (station heights, times): dropped by default, otherwise averaged per block like easting and northing
     extras = [lay_([1000.0 * (j + 1) + 0.5 * k for k in range(len(xy))], shape) for j in range(case.get("extra", 0))]
     bm = vd.BlockMean(center_coordinates=case["center"], uncertainty=case["wmode"].startswith("uncertainty"), drop_coords=case.get("drop", True), **kw)
+    # "no weights" in its three forms: left out, None, and one None per data component (what train_test_split hands back without weights)
+    none_form = ["omitted", "none", "tuple_of_none"][build.small_hash(case, 6) % 3]
+    none_args = {"omitted": (), "none": (None,), "tuple_of_none": ((None,) * ncomp,)}[none_form]
     if case["wmode"] == "uncertainty_noweights":
         try:
-            res = bm.filter((e, n), d_arg)
+            res = bm.filter((e, n), d_arg, *none_args)
         except Exception:  # noqa: BLE001 - must be rejected
-            ctx.label("uncertainty_without_weights_rejected")
+            ctx.label("uncertainty_without_weights_rejected", "noweights_" + none_form)
             ctx.nt(True)
             return
-        raise Violation("uncertainty=True without weights was accepted and returned %r" % (res,))
+        raise Violation("uncertainty=True without weights (weights %s) was accepted and returned %r" % (none_form, res))
     P = lambda a: build.present(a, case.get("container"))  # noqa: E731
     pd_arg = P(d_arg) if not isinstance(d_arg, tuple) else tuple(P(x) for x in d_arg)
     pw_arg = None if w_arg is None else (P(w_arg) if not isinstance(w_arg, tuple) else tuple(P(x) for x in w_arg))
@@ -122,7 +125,7 @@ def check_mean(case, ctx):
             build.quiet(bm.filter, (np.ravel(e)[::-1][:-1] * 0.5 + 3.25, np.ravel(n)[::-1][:-1] * 0.5 - 1.75), np.ravel(data[0])[::-1][:-1] * 1.0, np.ones(data[0].size - 1))
         except Exception:  # noqa: BLE001 - only its side effects matter here
             pass
-    res = bm.filter(pcoords, pd_arg, pw_arg) if weights is not None else bm.filter(pcoords, pd_arg)
+    res = bm.filter(pcoords, pd_arg, pw_arg) if weights is not None else bm.filter(pcoords, pd_arg, *none_args)
     for a, b in zip(arrays, before):
         ctx.check(np.array_equal(a, b), "BlockMean.filter modified one of its input arrays")
     ctx.check(isinstance(res, tuple) and len(res) == 3, "filter must return (coordinates, mean, weights)")
